@@ -224,7 +224,7 @@ def likely_cached_before(ops, idx):
 def fault_kinds_for(kd, parallel=True):
     kinds = []
     if kd["scheme"] == "sim":
-        kinds += ["NOTFOUND", "ERR_BEFORE", "ERR_MID", "ERR_AFTER", "RET_FALSE_BEFORE", "RET_FALSE_MID", "ERR_STOPITER"]
+        kinds += ["NOTFOUND", "ERR_BEFORE", "ERR_MID", "ERR_AFTER", "RET_FALSE_BEFORE", "RET_FALSE_MID", "ERR_STOPITER", "NOTFOUND_MID"]
         if not parallel:
             # Ctrl-C reaches the main thread only: meaningful when the download runs there
             kinds += ["INTERRUPT_MID"]
@@ -295,7 +295,7 @@ def gen_faults(rng, knobs, ops):
 
 def make_fault(rng, op_id, kind, key):
     f = {"op": op_id, "kind": kind, "key": key}
-    if kind in ("ERR_MID", "RET_FALSE_MID", "INTERRUPT_MID"):
+    if kind in ("ERR_MID", "RET_FALSE_MID", "INTERRUPT_MID", "NOTFOUND_MID"):
         f["k"] = rng.choice([0, 1, 1, 2, 5])
     if kind in ("EIO", "ENOSPC", "SHORT_WRITE"):
         f["nth"] = rng.choice([0, 0, 1, 2])
